@@ -30,11 +30,22 @@ def rnd_component(rng):
     return rng.randint(0, 65535)
 
 
+_POOL = []
+
+
 def rnd_color(rng):
-    return [rnd_component(rng) for _ in range(4)]
+    # colours repeat across zones, cells and lights (a writer that skips "unchanged" settings must still be right)
+    if _POOL and rng.random() < 0.4:
+        return list(rng.choice(_POOL))
+    c = [rnd_component(rng) for _ in range(4)]
+    _POOL.append(c)
+    if len(_POOL) > 6:
+        del _POOL[0]
+    return c
 
 
 def gen_population(rng):
+    del _POOL[:]
     n = rng.choice([0, 1, 1, 2, 3, 4, 6])
     names = set()
     while len(names) < n:
